@@ -664,6 +664,7 @@ pub fn oracle_case(names: &Names, c: &Case, out: &mut OracleOut) {
             // reach the fixed point of that side effect, then take the reference observation
             let _ = observe_exec(&ex);
             let before = observe_exec(&ex);
+            let snap_before = snap_of(&ex.models[0]);
             let r = ex.apply(&Op::Load(0, f.text.clone(), f.name.as_bytes().to_vec(), f.strict));
             if r.starts_with("R OK") {
                 out.loads_ok += 1;
@@ -680,7 +681,12 @@ pub fn oracle_case(names: &Names, c: &Case, out: &mut OracleOut) {
                 let after = observe_exec(&ex);
                 if after != before {
                     let d = first_diff(&before, &after);
-                    out.fails.push(format!("FAIL {} c11-load order={:?} file={} {} state changed: {}", c.id, order, k, r, d));
+                    let mut cl = changed_classes(&snap_before, &snap_of(&ex.models[0]));
+                    if cl.is_empty() {
+                        cl.push("other");
+                    }
+                    *out.loads_err.entry(format!("c11-changed {}", cl.join("+"))).or_insert(0) += 1;
+                    out.fails.push(format!("FAIL {} c11-load order={:?} file={} {} changed={} state changed: {}", c.id, order, k, r, cl.join("+"), d));
                 }
             }
         }
@@ -716,7 +722,8 @@ pub fn oracle_case(names: &Names, c: &Case, out: &mut OracleOut) {
                     None => out.fails.push(format!("FAIL {} missing order={:?} element {} of file {} is not in the merged model", c.id, order, k, c.files[fi].name)),
                     Some(mv) => {
                         if mv[0].values != v[0].values {
-                            out.fails.push(format!("FAIL {} values order={:?} element {}: file {} has {} merged has {}", c.id, order, k, c.files[fi].name, v[0].values, mv[0].values));
+                            let kind = if no_attrs(&mv[0].values) == no_attrs(&v[0].values) { "attrs" } else { "values" };
+                            out.fails.push(format!("FAIL {} {} order={:?} element {}: file {} has {} merged has {}", c.id, kind, order, k, c.files[fi].name, v[0].values, mv[0].values));
                         }
                     }
                 }
@@ -754,7 +761,8 @@ pub fn oracle_case(names: &Names, c: &Case, out: &mut OracleOut) {
                             let c2 = canon_of(&m2);
                             if content_of(&c2) != content_of(ac) {
                                 let d = canon_diff(ac, &c2);
-                                out.fails.push(format!("FAIL {} file-content order={:?} file {} serialized from the merged model differs from the file on its own: {}", c.id, order, c.files[fi].name, d));
+                                let kind = if content_no_attrs(&c2) == content_no_attrs(ac) { "file-attrs" } else { "file-content" };
+                                out.fails.push(format!("FAIL {} {} order={:?} file {} serialized from the merged model differs from the file on its own: {}", c.id, kind, order, c.files[fi].name, d));
                             } else if &t != atext {
                                 out.text_differs_order_only += 1;
                             }
@@ -771,13 +779,90 @@ pub fn oracle_case(names: &Names, c: &Case, out: &mut OracleOut) {
             None => first_content = Some((order.clone(), mc)),
             Some((o1, c1)) => {
                 if content_of(c1) != content_of(&mc) || c1.iter().any(|(k, v)| mc.get(k).map(|w| w[0].files != v[0].files).unwrap_or(true)) {
-                    out.fails.push(format!("FAIL {} order-dependent orders {:?} vs {:?}: {}", c.id, o1, order, canon_diff(c1, &mc)));
+                    let attrs_only = content_no_attrs(c1) == content_no_attrs(&mc) && !c1.iter().any(|(k, v)| mc.get(k).map(|w| w[0].files != v[0].files).unwrap_or(true));
+                    let kind = if attrs_only { "order-attrs" } else { "order-dependent" };
+                    out.fails.push(format!("FAIL {} {} orders {:?} vs {:?}: {}", c.id, kind, o1, order, canon_diff(c1, &mc)));
                 } else if c1.iter().any(|(k, v)| mc.get(k).map(|w| w[0].kid_order != v[0].kid_order).unwrap_or(false)) {
                     out.order_dependent_sibling_order += 1;
                 }
             }
         }
     }
+}
+
+/// semantic snapshot of a model for the classification of what a rejected load changed
+struct Snap {
+    canon: Canon,
+    idents: Vec<(String, String)>, // path -> canonical key of the element it denotes
+    local: BTreeMap<String, Vec<bool>>, // key -> is the membership local (explicit)?
+}
+fn snap_of(m: &AutosarModel) -> Snap {
+    let canon = canon_of(m);
+    // canonical key of every element (same walk as canon_walk)
+    fn keys(e: &Element, path: &str, out: &mut Vec<(Element, String)>) {
+        let split = e.element_type().splittable() != 0;
+        let mut counts: BTreeMap<String, usize> = BTreeMap::new();
+        for k in e.sub_elements() {
+            let nm = k.element_name().to_str().to_string();
+            let ord = *counts.get(&nm).unwrap_or(&0);
+            counts.insert(nm, ord + 1);
+            let kp = format!("{}/{}", path, seg(&k, split, ord));
+            keys(&k, &kp, out);
+        }
+        out.push((e.clone(), path.to_string()));
+    }
+    let mut ks = vec![];
+    keys(&m.root_element(), "", &mut ks);
+    let mut idents: Vec<(String, String)> = m
+        .identifiable_elements()
+        .map(|(p, w)| (p, w.upgrade().and_then(|e| ks.iter().find(|(x, _)| *x == e).map(|(_, k)| k.clone())).unwrap_or("<dead>".into())))
+        .collect();
+    idents.sort();
+    let mut local: BTreeMap<String, Vec<bool>> = BTreeMap::new();
+    for (e, k) in &ks {
+        local.entry(k.clone()).or_default().push(e.file_membership().map(|(l, _)| l).unwrap_or(false));
+    }
+    Snap { canon, idents, local }
+}
+/// the classes of changes between two snapshots: elements (added/removed), values (attributes, character data, comment),
+/// order (of ordered content), membership (effective file sets), index (path index), local (a membership became explicit)
+fn changed_classes(a: &Snap, b: &Snap) -> Vec<&'static str> {
+    let mut v = vec![];
+    let ka: Vec<(&String, usize)> = a.canon.iter().map(|(k, e)| (k, e.len())).collect();
+    let kb: Vec<(&String, usize)> = b.canon.iter().map(|(k, e)| (k, e.len())).collect();
+    if ka != kb {
+        v.push("elements");
+    }
+    let common = |f: &dyn Fn(&Entry, &Entry) -> bool| -> bool {
+        a.canon.iter().any(|(k, ea)| b.canon.get(k).map(|eb| ea.len() == eb.len() && ea.iter().zip(eb.iter()).any(|(x, y)| f(x, y))).unwrap_or(false))
+    };
+    if common(&|x, y| x.values != y.values) {
+        v.push("values");
+    }
+    if common(&|x, y| x.ordered_kids != y.ordered_kids) && !v.contains(&"elements") {
+        v.push("order");
+    }
+    if common(&|x, y| x.files != y.files) {
+        v.push("membership");
+    }
+    if a.idents != b.idents {
+        v.push("index");
+    }
+    if a.local.iter().any(|(k, la)| b.local.get(k).map(|lb| la != lb).unwrap_or(false)) {
+        v.push("local");
+    }
+    v
+}
+
+/// the values of an entry without the attributes
+fn no_attrs(values: &str) -> &str {
+    match values.find("] c=[") {
+        Some(i) => &values[i + 2..],
+        None => values,
+    }
+}
+fn content_no_attrs(c: &Canon) -> BTreeMap<String, Vec<(String, Option<Vec<String>>)>> {
+    c.iter().map(|(k, v)| (k.clone(), v.iter().map(|e| (no_attrs(&e.values).to_string(), e.ordered_kids.clone())).collect())).collect()
 }
 
 fn first_diff(a: &[String], b: &[String]) -> String {
@@ -878,10 +963,36 @@ fn split_case(id: usize, rng: &mut SplitMix64, max_elements: usize, max_files: u
     if permute {
         *stats.entry("cases_with_permuted_siblings".into()).or_insert(0) += 1;
     }
+    // attribute decoration: in some cases the shared packages and elements carry a UUID (and S) that differs per file
+    // (not in the cases that exercise the known finding about unnamed elements: one finding per case)
+    let decorate = !mixed_versions && uniform != 0x80000 && rng.below(5) == 0;
+    fn deco(d: &mut D, f: usize, below_elements: bool, n: &mut u64) {
+        let shared = d.files & (d.files - 1) != 0;
+        if shared && d.item.is_some() && (d.name == "AR-PACKAGE" || below_elements) {
+            d.attrs.push(("UUID".to_string(), format!("f{}-{}", f, d.uid)));
+            if d.uid % 3 == 0 {
+                d.attrs.push(("S".to_string(), format!("s{}", f)));
+            }
+            *n += 1;
+        }
+        let be = d.name == "ELEMENTS";
+        for k in d.kids.iter_mut() {
+            deco(k, f, be, n);
+        }
+    }
     let mut files = vec![];
+    let mut ndeco = 0u64;
     for f in 0..nfiles {
-        let p = project(&master, f as u32, Some(ElementType::ROOT), rng, permute && f > 0).unwrap();
+        let mut p = project(&master, f as u32, Some(ElementType::ROOT), rng, permute && f > 0).unwrap();
+        if decorate {
+            deco(&mut p, f, false, &mut ndeco);
+        }
         files.push(CaseFile { name: format!("f{}.arxml", f), strict: true, text: file_text(&p, versions[f]).into_bytes() });
+    }
+    let decorate = decorate && ndeco > 0;
+    if decorate {
+        *stats.entry("split_cases_with_attribute_decoration".into()).or_insert(0) += 1;
+        *stats.entry("decorated_shared_elements".into()).or_insert(0) += ndeco;
     }
     let orders = if nfiles <= 3 { permutations(nfiles) } else {
         let all = permutations(nfiles);
@@ -893,7 +1004,7 @@ fn split_case(id: usize, rng: &mut SplitMix64, max_elements: usize, max_files: u
         o.dedup();
         o
     };
-    Case { id, kind: if mixed_versions { "mixedver".into() } else { "split".into() }, files, orders }
+    Case { id, kind: if mixed_versions { "mixedver".into() } else if decorate { "split-attrs".into() } else { "split".into() }, files, orders }
 }
 
 /// cases whose second (or later) file must be rejected: syntax error, overlapping paths, non-splittable divergence,
@@ -902,7 +1013,19 @@ fn conflict_case(id: usize, rng: &mut SplitMix64, stats: &mut BTreeMap<String, u
     let mut master = gen_master(rng, 6);
     assign_all(&mut master, 1);
     let base = file_text(&master, 0x20000);
-    let kind = rng.below(7);
+    let kind = rng.below(9);
+    // attribute decoration of the shared elements on the path to the conflict (UUID differs per file, or only the rejected
+    // file has one): a rejected load must not leave them on the model's elements
+    let deco = rng.below(2) == 0;
+    let (ua, ub) = if deco {
+        match rng.below(3) {
+            0 => (String::new(), format!(" UUID=\"b-{}\"", rng.below(1000))),
+            1 => (format!(" UUID=\"a-{}\"", rng.below(1000)), format!(" UUID=\"b-{}\"", rng.below(1000))),
+            _ => (String::new(), format!(" S=\"s{}\" UUID=\"b-{}\"", rng.below(10), rng.below(1000))),
+        }
+    } else {
+        (String::new(), String::new())
+    };
     let hdr = |body: &str| -> String {
         format!("<?xml version=\"1.0\" encoding=\"utf-8\"?>\n<AUTOSAR xsi:schemaLocation=\"http://autosar.org/schema/r4.0 AUTOSAR_00050.xsd\" xmlns=\"http://autosar.org/schema/r4.0\" xmlns:xsi=\"http://www.w3.org/2001/XMLSchema-instance\">\n{}</AUTOSAR>\n", body)
     };
@@ -935,14 +1058,22 @@ fn conflict_case(id: usize, rng: &mut SplitMix64, stats: &mut BTreeMap<String, u
         2 => {
             // divergence below a non-splittable parent: DATA-ELEMENTS of one interface with different prototypes
             ("nonsplit", hdr(&format!(
-                "<AR-PACKAGES><AR-PACKAGE><SHORT-NAME>{}</SHORT-NAME><ELEMENTS><UNIT><SHORT-NAME>zz_u</SHORT-NAME></UNIT><SENDER-RECEIVER-INTERFACE><SHORT-NAME>zz_if</SHORT-NAME><DATA-ELEMENTS><VARIABLE-DATA-PROTOTYPE><SHORT-NAME>other</SHORT-NAME></VARIABLE-DATA-PROTOTYPE></DATA-ELEMENTS></SENDER-RECEIVER-INTERFACE></ELEMENTS></AR-PACKAGE></AR-PACKAGES>",
+                "<AR-PACKAGES><AR-PACKAGE{ub}><SHORT-NAME>{}</SHORT-NAME><ELEMENTS><UNIT><SHORT-NAME>zz_u</SHORT-NAME></UNIT><SENDER-RECEIVER-INTERFACE{ub}><SHORT-NAME>zz_if</SHORT-NAME><DATA-ELEMENTS><VARIABLE-DATA-PROTOTYPE><SHORT-NAME>other</SHORT-NAME></VARIABLE-DATA-PROTOTYPE></DATA-ELEMENTS></SENDER-RECEIVER-INTERFACE></ELEMENTS></AR-PACKAGE></AR-PACKAGES>",
+                pname
+            )))
+        }
+        7 | 8 => {
+            // three files: a1 has the package E = pname with a non-splittable interface, a2 lacks E (so E gets the explicit
+            // set {a1}), b shares E, imports a new element below it and conflicts deeper (after the import)
+            ("late3", hdr(&format!(
+                "<AR-PACKAGES><AR-PACKAGE{ub}><SHORT-NAME>{}</SHORT-NAME><ELEMENTS><UNIT><SHORT-NAME>zz_new</SHORT-NAME></UNIT><CAN-CLUSTER><SHORT-NAME>zz_extra</SHORT-NAME></CAN-CLUSTER><SENDER-RECEIVER-INTERFACE{ub}><SHORT-NAME>zz_if</SHORT-NAME><DATA-ELEMENTS><VARIABLE-DATA-PROTOTYPE><SHORT-NAME>other</SHORT-NAME></VARIABLE-DATA-PROTOTYPE></DATA-ELEMENTS></SENDER-RECEIVER-INTERFACE></ELEMENTS></AR-PACKAGE></AR-PACKAGES>",
                 pname
             )))
         }
         3 => {
             // import conflict: the two files choose different alternatives of a choice
             ("choice", hdr(&format!(
-                "<AR-PACKAGES><AR-PACKAGE><SHORT-NAME>zz_new</SHORT-NAME></AR-PACKAGE><AR-PACKAGE><SHORT-NAME>{}</SHORT-NAME><ELEMENTS><COMPU-METHOD><SHORT-NAME>zz_cm</SHORT-NAME><COMPU-INTERNAL-TO-PHYS><COMPU-SCALES><COMPU-SCALE><COMPU-CONST><VT>x</VT></COMPU-CONST></COMPU-SCALE></COMPU-SCALES></COMPU-INTERNAL-TO-PHYS></COMPU-METHOD></ELEMENTS></AR-PACKAGE></AR-PACKAGES>",
+                "<AR-PACKAGES><AR-PACKAGE><SHORT-NAME>zz_new</SHORT-NAME></AR-PACKAGE><AR-PACKAGE{ub}><SHORT-NAME>{}</SHORT-NAME><ELEMENTS><COMPU-METHOD{ub}><SHORT-NAME>zz_cm</SHORT-NAME><COMPU-INTERNAL-TO-PHYS><COMPU-SCALES><COMPU-SCALE><COMPU-CONST><VT>x</VT></COMPU-CONST></COMPU-SCALE></COMPU-SCALES></COMPU-INTERNAL-TO-PHYS></COMPU-METHOD></ELEMENTS></AR-PACKAGE></AR-PACKAGES>",
                 pname
             )))
         }
@@ -965,8 +1096,8 @@ fn conflict_case(id: usize, rng: &mut SplitMix64, stats: &mut BTreeMap<String, u
     let mut files = vec![CaseFile { name: "f0.arxml".into(), strict: true, text: base.clone().into_bytes() }];
     // for the non-splittable / choice conflicts the first file must contain the counterpart
     let first_text = match kind {
-        2 => hdr(&format!(
-            "<AR-PACKAGES><AR-PACKAGE><SHORT-NAME>{}</SHORT-NAME><ELEMENTS><SENDER-RECEIVER-INTERFACE><SHORT-NAME>zz_if</SHORT-NAME><DATA-ELEMENTS><VARIABLE-DATA-PROTOTYPE><SHORT-NAME>one</SHORT-NAME></VARIABLE-DATA-PROTOTYPE></DATA-ELEMENTS></SENDER-RECEIVER-INTERFACE><UNIT><SHORT-NAME>aa_u</SHORT-NAME></UNIT></ELEMENTS></AR-PACKAGE></AR-PACKAGES>",
+        2 | 7 | 8 => hdr(&format!(
+            "<AR-PACKAGES><AR-PACKAGE{ua}><SHORT-NAME>{}</SHORT-NAME><ELEMENTS><SENDER-RECEIVER-INTERFACE{ua}><SHORT-NAME>zz_if</SHORT-NAME><DATA-ELEMENTS><VARIABLE-DATA-PROTOTYPE><SHORT-NAME>one</SHORT-NAME></VARIABLE-DATA-PROTOTYPE></DATA-ELEMENTS></SENDER-RECEIVER-INTERFACE><UNIT><SHORT-NAME>aa_u</SHORT-NAME></UNIT></ELEMENTS></AR-PACKAGE></AR-PACKAGES>",
             pname
         )),
         1 if first_el.is_none() => hdr(&format!(
@@ -974,13 +1105,31 @@ fn conflict_case(id: usize, rng: &mut SplitMix64, stats: &mut BTreeMap<String, u
             pname
         )),
         3 => hdr(&format!(
-            "<AR-PACKAGES><AR-PACKAGE><SHORT-NAME>{}</SHORT-NAME><ELEMENTS><COMPU-METHOD><SHORT-NAME>zz_cm</SHORT-NAME><COMPU-INTERNAL-TO-PHYS><COMPU-SCALES><COMPU-SCALE><COMPU-RATIONAL-COEFFS><COMPU-NUMERATOR><V>1</V></COMPU-NUMERATOR></COMPU-RATIONAL-COEFFS></COMPU-SCALE></COMPU-SCALES></COMPU-INTERNAL-TO-PHYS></COMPU-METHOD><UNIT><SHORT-NAME>aa_u</SHORT-NAME></UNIT></ELEMENTS></AR-PACKAGE></AR-PACKAGES>",
+            "<AR-PACKAGES><AR-PACKAGE{ua}><SHORT-NAME>{}</SHORT-NAME><ELEMENTS><COMPU-METHOD{ua}><SHORT-NAME>zz_cm</SHORT-NAME><COMPU-INTERNAL-TO-PHYS><COMPU-SCALES><COMPU-SCALE><COMPU-RATIONAL-COEFFS><COMPU-NUMERATOR><V>1</V></COMPU-NUMERATOR></COMPU-RATIONAL-COEFFS></COMPU-SCALE></COMPU-SCALES></COMPU-INTERNAL-TO-PHYS></COMPU-METHOD><UNIT><SHORT-NAME>aa_u</SHORT-NAME></UNIT></ELEMENTS></AR-PACKAGE></AR-PACKAGES>",
             pname
         )),
         _ => String::new(),
     };
     if !first_text.is_empty() {
         files[0].text = first_text.into_bytes();
+    }
+    if kind >= 7 {
+        // the middle file: other packages only (a sibling package with elements, sometimes a second one)
+        let extra = if rng.below(2) == 0 { "<AR-PACKAGE><SHORT-NAME>zz_mid2</SHORT-NAME></AR-PACKAGE>" } else { "" };
+        let mid = hdr(&format!(
+            "<AR-PACKAGES><AR-PACKAGE><SHORT-NAME>zz_mid</SHORT-NAME><ELEMENTS><SYSTEM><SHORT-NAME>zz_sys</SHORT-NAME></SYSTEM></ELEMENTS></AR-PACKAGE>{}</AR-PACKAGES>",
+            extra
+        ));
+        files.push(CaseFile { name: "f1.arxml".into(), strict: true, text: mid.into_bytes() });
+        files.push(CaseFile { name: "f2.arxml".into(), strict: rng.below(4) != 0, text: second.into_bytes() });
+        if deco {
+            *stats.entry("conflict_cases_with_attribute_decoration".into()).or_insert(0) += 1;
+        }
+        // the rejected file last; both orders of the two accepted files (E is restricted by a2 / imported with {a1})
+        return Case { id, kind: format!("conflict-{}", label), files, orders: vec![vec![0, 1, 2], vec![1, 0, 2]] };
+    }
+    if deco && (kind == 2 || kind == 3) {
+        *stats.entry("conflict_cases_with_attribute_decoration".into()).or_insert(0) += 1;
     }
     let second_name = if kind == 4 { "f0.arxml" } else { "f1.arxml" };
     files.push(CaseFile { name: second_name.into(), strict: rng.below(4) != 0, text: second.into_bytes() });
@@ -1151,13 +1300,25 @@ fn c11_main(args: &[String]) {
                     // (observe twice: serializing the files rewrites the root's xsi:schemaLocation, see oracle_case)
                     let _ = observe_exec(&ex);
                     let before = observe_exec(&ex);
+                    let snaps_before: Vec<Snap> = ex.models.iter().map(snap_of).collect();
                     let r = ex.apply(op);
                     if r.starts_with("R ERR") {
                         n += 1;
                         errs.push(r.clone());
                         let after = observe_exec(&ex);
                         if before != after {
-                            lines.push(format!("C11FAIL script={} op={} {} {}", idx, j, r.replace(' ', "_"), first_diff(&before, &after)));
+                            let mut cl: Vec<&'static str> = vec![];
+                            for (sb, m) in snaps_before.iter().zip(ex.models.iter()) {
+                                for c in changed_classes(sb, &snap_of(m)) {
+                                    if !cl.contains(&c) {
+                                        cl.push(c);
+                                    }
+                                }
+                            }
+                            if cl.is_empty() {
+                                cl.push("other");
+                            }
+                            lines.push(format!("C11FAIL script={} op={} {} changed={} {}", idx, j, r.replace(' ', "_"), cl.join("+"), first_diff(&before, &after)));
                         }
                     }
                     if r == "R PANIC" {
